@@ -2666,6 +2666,9 @@ func (pc *PeerConnection) close(shouldGracefullyClose bool) error { //nolint:cyc
 		}
 		pc.sctpTransport.lock.Unlock()
 
+		// the goroutine accepting data channels ends once the association is stopped
+		pc.sctpTransport.waitForAcceptLoop()
+
 		return gracefulCloseErrors
 	}
 
